@@ -609,11 +609,14 @@ impl<'a> SetRewritingRulesVisitor<'a> for RewritingRulesSetter<'a> {
             )]
         };
         if let Some(synthetic_data) = &self.synthetic_data {
-            rewriting_rules.push(RewritingRule::new(
-                vec![],
-                Property::SyntheticData,
-                Parameters::SyntheticData(synthetic_data.clone()),
-            ))
+            // Only the tables that have a synthetic counterpart can be replaced by it
+            if synthetic_data.table(table).is_ok() {
+                rewriting_rules.push(RewritingRule::new(
+                    vec![],
+                    Property::SyntheticData,
+                    Parameters::SyntheticData(synthetic_data.clone()),
+                ))
+            }
         }
         rewriting_rules
     }
